@@ -1358,3 +1358,330 @@ Example C08_write_safe_weak_not_necessary :
   contains (of_string "k                             '/*a*/1';") (to_string_sd s) = true /\
   to_string_sd (rename_sd 6 s) = rename_str 6 (to_string_sd s) /\ rename_sd 6 s = c08w_sd (read_plain fs c08w_root false true 5).
 Proof. cbv zeta. repeat split; vm_compute; reflexivity. Qed.
+
+(* ================================================================================================== *)
+(* added from Properties/C08_add.v (2026-10-01)                                              *)
+(* ================================================================================================== *)
+(* C08 (addition): ORDER = TRUE without a wrap.  SDict.order_keys sorts the keys of every dict level (placeholder keys
+   included) and the id tables; it commutes with the renaming of placeholder ids as long as the ids do not straddle the
+   wrap-around and every key is either exactly one renamed placeholder or unrelated to the placeholder words.
+   To be appended to Properties/C08.v (then drop the line that imports C08). *)
+From Coq Require Import String.
+From Coq Require Import NArith ZArith List Bool.
+From DictIO Require Import Chars Str Value Scalar Lexer MiscSpec CliProofs KeyPath SDict Layout TokParser Reader.
+From DictIO Require Parse.
+From DictIO Require Import CounterBase CounterLex CounterParse CounterProofs CounterRead CounterWrite CounterWriteWeak CounterOrder.
+Import ListNotations.
+
+(* ---- the vocabulary (CounterOrder.v) -------------------------------------------------------------------------- *)
+(* A key (a string; int keys are always good) is good in one of two ways.
+     key_exact:  it IS one renamed placeholder,  w ++ six digits  with w one of LINECOMMENT INCLUDE STRINGLITERAL EXPRESSION,
+                 or it is free: the renaming leaves it alone (cleanb) and it does not begin with one of the four words followed
+                 by a digit (BLOCKCOMMENT placeholders, whose ids are not renamed, are free).
+     key_scan:   scanning it the way the renaming does, every position that is not the start of a whole placeholder does not
+                 begin with one of the four words followed by a digit: the placeholders may be glued to other characters
+                 (kLINECOMMENT000000, STRINGLITERAL000001cd -- the lexer produces such keys), but there is no partial one
+                 (a word followed by one to five digits).
+   keys_pure s:  all keys of the dict levels that order_keys sorts (those reachable through dicts) are key_exact, or all of
+                 them are key_scan (the two ways cannot be mixed: C08_order_keys_mixed_finding).
+   sd_ids s:     the ids of the line comment, include and expression tables and of the renamed placeholders in those keys.
+   nowrapb d i:  i >= 10^6 (such an id is not renamed), or 0 <= i + d < 10^6. *)
+
+(* (1) ordering commutes with the renaming when no id wraps *)
+Theorem C08_order_no_wrap : forall d s, keys_pure s = true -> forallb (nowrapb d) (sd_ids s) = true ->
+  sd_order (rename_sd d s) = rename_sd d (sd_order s).
+Proof. exact order_no_wrap. Qed.
+Print Assumptions C08_order_no_wrap.
+
+(* (1') what is needed of the ids is exactly that the shift keeps the order of every two of them (all below the wrap, or all
+   beyond it) *)
+Theorem C08_order_monotone : forall d s, keys_pure s = true ->
+  (forall i j, In i (sd_ids s) -> In j (sd_ids s) -> (shift d i <? shift d j)%N = (i <? j)%N) ->
+  sd_order (rename_sd d s) = rename_sd d (sd_order s).
+Proof. exact order_monotone. Qed.
+Print Assumptions C08_order_monotone.
+
+Example C08_order_no_wrap_nonvacuous :
+  let s := c08_sd (read_plain c08_fs2 c08_root true true (-1)) in
+  keys_pure s = true /\ sd_ids s = [0; 1; 5; 2; 0; 2; 1; 5]%N /\
+  forallb (nowrapb 6) (sd_ids s) = true /\ forallb (nowrapb 123457) (sd_ids s) = true /\ forallb (nowrapb 999998) (sd_ids s) = false /\
+  sd_order (rename_sd 6 s) = rename_sd 6 (sd_order s) /\
+  sd_order (rename_sd 123457 s) = rename_sd 123457 (sd_order s) /\
+  sd_order (rename_sd 999998 s) <> rename_sd 999998 (sd_order s) /\
+  sd_order s <> s /\
+  map fst (sd_data (sd_order (rename_sd 6 s))) =
+    map (fun x => KS (of_string x)) ["BLOCKCOMMENT000000"; "INCLUDE000008"; "LINECOMMENT000006"; "LINECOMMENT000007"; "LINECOMMENT000011";
+                                     "a"; "b"; "c"; "x"; "y"]%string.
+Proof.
+  cbv zeta.
+  assert (Hp : keys_pure (c08_sd (read_plain c08_fs2 c08_root true true (-1))) = true) by (vm_compute; reflexivity).
+  assert (H6 : forallb (nowrapb 6) (sd_ids (c08_sd (read_plain c08_fs2 c08_root true true (-1)))) = true) by (vm_compute; reflexivity).
+  assert (H7 : forallb (nowrapb 123457) (sd_ids (c08_sd (read_plain c08_fs2 c08_root true true (-1)))) = true) by (vm_compute; reflexivity).
+  refine (conj Hp (conj _ (conj H6 (conj H7 (conj _ (conj (C08_order_no_wrap _ _ Hp H6) (conj (C08_order_no_wrap _ _ Hp H7) _))))))).
+  - vm_compute. reflexivity.
+  - vm_compute. reflexivity.
+  - split; [vm_compute; discriminate|]. split; [vm_compute; discriminate|vm_compute; reflexivity].
+Qed.
+
+(* all ids beyond the wrap: nowrapb fails, the shift is monotone on them all the same *)
+Example C08_order_monotone_nonvacuous :
+  let k i := (KS (placeholder w_LINECOMMENT i), Leaf (SStr (placeholder w_LINECOMMENT i))) in
+  let s := mkSD [(KS (of_string "b"), Leaf (SInt 1)); k 999999%N; k 999998%N] [(999999%N, of_string "// two"); (999998%N, of_string "// one")] [] [] [] in
+  keys_pure s = true /\ forallb (nowrapb 5) (sd_ids s) = false /\
+  sd_order (rename_sd 5 s) = rename_sd 5 (sd_order s) /\
+  map fst (sd_lc (sd_order (rename_sd 5 s))) = [3; 4]%N.
+Proof.
+  cbv zeta. split; [vm_compute; reflexivity|]. split; [vm_compute; reflexivity|]. split; [|vm_compute; reflexivity].
+  apply C08_order_monotone; [vm_compute; reflexivity|].
+  intros i j Hi Hj. vm_compute in Hi, Hj.
+  repeat (destruct Hi as [<-|Hi]; [repeat (destruct Hj as [<-|Hj]; [vm_compute; reflexivity|]); destruct Hj|]). destruct Hi.
+Qed.
+
+(* ---- (2) DictReader.read(order=True), includes on, comments on, no scope -------------------------------------------- *)
+(* order_side d r (a boolean on the FIRST read, before the sort): keys_pure and no id wraps under d.
+   rename_read d k (s, _) = (rename_sd d s, k). *)
+Theorem C08_read_order_counter_independent : forall fs root c1 c2,
+  counter_ok c1 -> counter_ok c2 -> fs_ok fs = true -> cleanb root = true ->
+  order_side (c2 - c1) (read_plain fs root true true c1) = true ->
+  exists n,
+    Parse.read_opts fs root true true true [] c2 =
+    option_map (map_res (rename_read (c2 - c1) (counter_iter n c2))) (Parse.read_opts fs root true true true [] c1).
+Proof. exact read_order_counter_independent. Qed.
+Print Assumptions C08_read_order_counter_independent.
+
+(* the text written from the sorted result *)
+Theorem C08_write_after_read_order_counter_independent : forall fs root foam c1 c2,
+  counter_ok c1 -> counter_ok c2 -> fs_ok fs = true -> cleanb root = true ->
+  order_side (c2 - c1) (read_plain fs root true true c1) = true ->
+  write_side' foam (order_read (read_plain fs root true true c1)) = true ->
+  option_map (written_after (fmt_sd foam)) (Parse.read_opts fs root true true true [] c2) =
+  option_map (written_after (fmt_sd foam)) (Parse.read_opts fs root true true true [] c1).
+Proof. exact write_after_read_order. Qed.
+Print Assumptions C08_write_after_read_order_counter_independent.
+
+(* DictWriter.write(order=True), mode w: write_sd_order_side foam s = the source after parse_values and the sort is
+   write_safe' (foam_write_safe') and its text contains no placeholder name *)
+Theorem C08_write_sd_order_counter_independent : forall fs foam target d s c c',
+  keys_pure s = true -> forallb (nowrapb d) (sd_ids s) = true -> write_sd_order_side foam s = true ->
+  text_of (Parse.write_sd fs foam target false true (rename_sd d s) c') = text_of (Parse.write_sd fs foam target false true s c).
+Proof. exact write_sd_order_counter_independent. Qed.
+Print Assumptions C08_write_sd_order_counter_independent.
+
+(* DictParser.parse(order=True), mode w, includes on, comments on, no scope.  pm_order_side fs src output c1 c2 (on the FIRST
+   run): the SDict read (before the sort) has pure keys, none of its ids wraps under c2 - c1, and the sorted SDict satisfies
+   write_sd_order_side for the formatter the output option selects. *)
+Theorem C08_parse_order_counter_independent : forall fs src output c1 c2,
+  counter_ok c1 -> counter_ok c2 -> fs_ok fs = true -> cleanb src = true ->
+  pm_order_side fs src output c1 c2 = true ->
+  pm_out (Parse.parse_model fs src true false true true [] output c2) = pm_out (Parse.parse_model fs src true false true true [] output c1).
+Proof. exact parse_model_order_counter_independent. Qed.
+Print Assumptions C08_parse_order_counter_independent.
+
+(* ---- the conditions evaluated once, at the fresh counter: on the files and the two counters only ------------------------ *)
+(* keys_pure does not depend on the counter; the ids of the read at counter c are those of the read at the fresh counter
+   (0, 1, 2, ... in the order drawn) plus c + 1.  source_order_ok fs root c1 c2: the read at the fresh counter has pure keys and
+   every id i of it satisfies  i + 1 + max c1 c2 < 10^6  -- no id drawn wraps, at either counter (symmetric in c1, c2). *)
+Theorem C08_order_source_condition : forall fs root c1 c2,
+  counter_ok c1 -> counter_ok c2 -> fs_ok fs = true -> cleanb root = true ->
+  source_order_ok fs root c1 c2 = true -> order_side (c2 - c1) (read_plain fs root true true c1) = true.
+Proof. exact source_order_side. Qed.
+Print Assumptions C08_order_source_condition.
+
+Theorem C08_keys_pure_counter_independent : forall d s, keys_pure (rename_sd d s) = keys_pure s.
+Proof. exact keys_pure_R. Qed.
+Print Assumptions C08_keys_pure_counter_independent.
+
+Theorem C08_ids_renamed : forall d s, sd_ids (rename_sd d s) = map (shift d) (sd_ids s).
+Proof. exact sd_ids_R. Qed.
+Print Assumptions C08_ids_renamed.
+
+Theorem C08_read_order_source_condition : forall fs root c1 c2,
+  counter_ok c1 -> counter_ok c2 -> fs_ok fs = true -> cleanb root = true ->
+  source_order_ok fs root c1 c2 = true ->
+  exists n,
+    Parse.read_opts fs root true true true [] c2 =
+    option_map (map_res (rename_read (c2 - c1) (counter_iter n c2))) (Parse.read_opts fs root true true true [] c1).
+Proof. exact read_order_source. Qed.
+Print Assumptions C08_read_order_source_condition.
+
+(* pm_order_source_ok = source_order_ok and write_sd_order_side of the sorted read at the fresh counter *)
+Theorem C08_parse_order_source_condition : forall fs src output c1 c2,
+  counter_ok c1 -> counter_ok c2 -> fs_ok fs = true -> cleanb src = true ->
+  pm_order_source_ok fs src output c1 c2 = true ->
+  pm_out (Parse.parse_model fs src true false true true [] output c2) = pm_out (Parse.parse_model fs src true false true true [] output c1).
+Proof. exact parse_model_order_source. Qed.
+Print Assumptions C08_parse_order_source_condition.
+
+(* non-vacuity: c08_fs2 (eight ids drawn, six kept) with order = true at the counters -1, 5 and 123456, in both directions:
+   identical bytes by the theorems; at 999997 the condition fails and the bytes differ (C08_order_wrap_finding) *)
+Example C08_parse_order_counter_independent_nonvacuous :
+  let pm c := pm_out (Parse.parse_model c08_fs2 c08_root true false true true [] None c) in
+  fs_ok c08_fs2 = true /\ cleanb c08_root = true /\ counter_ok 5 /\
+  pm_order_source_ok c08_fs2 c08_root None (-1) 5 = true /\ pm_order_source_ok c08_fs2 c08_root None (-1) 123456 = true /\
+  pm_order_source_ok c08_fs2 c08_root None 123456 5 = true /\
+  pm_order_source_ok c08_fs2 c08_root (Some (of_string "foam")) (-1) 123456 = true /\
+  pm_order_side c08_fs2 c08_root None 5 123456 = true /\
+  pm 5%Z = pm (-1)%Z /\ pm 123456%Z = pm (-1)%Z /\ pm 5%Z = pm 123456%Z /\ pm 123456%Z = pm 5%Z /\
+  pm_out (Parse.parse_model c08_fs2 c08_root true false true true [] (Some (of_string "foam")) 123456) =
+    pm_out (Parse.parse_model c08_fs2 c08_root true false true true [] (Some (of_string "foam")) (-1)) /\
+  (exists n, Parse.read_opts c08_fs2 c08_root true true true [] 123456 =
+             option_map (map_res (rename_read (123456 - -1) (counter_iter n 123456))) (Parse.read_opts c08_fs2 c08_root true true true [] (-1))) /\
+  (* across the wrap *)
+  pm_order_source_ok c08_fs2 c08_root None (-1) 999997 = false /\ source_order_ok c08_fs2 c08_root (-1) 999997 = false /\
+  pm_order_side c08_fs2 c08_root None (-1) 999997 = false /\ pm 999997%Z <> pm (-1)%Z /\
+  (exists txt, pm 5%Z = Some (Ok (of_string "/d/parsed.main.dict", txt)) /\ List.length txt = 520%nat /\
+               contains (of_string "// first
+// second
+// sub comment
+a ") txt = true).
+Proof.
+  cbv zeta. destruct c08_ok as (H1 & H2 & H3).
+  assert (H5 : counter_ok 5) by (unfold counter_ok; split; discriminate).
+  assert (Hf : fs_ok c08_fs2 = true) by (vm_compute; reflexivity).
+  assert (Hr : cleanb c08_root = true) by (vm_compute; reflexivity).
+  assert (Ha : pm_order_source_ok c08_fs2 c08_root None (-1) 5 = true) by (vm_compute; reflexivity).
+  assert (Hb : pm_order_source_ok c08_fs2 c08_root None (-1) 123456 = true) by (vm_compute; reflexivity).
+  assert (Hc : pm_order_source_ok c08_fs2 c08_root None 123456 5 = true) by (vm_compute; reflexivity).
+  assert (Hd : pm_order_source_ok c08_fs2 c08_root (Some (of_string "foam")) (-1) 123456 = true) by (vm_compute; reflexivity).
+  assert (He : pm_order_side c08_fs2 c08_root None 5 123456 = true) by (vm_compute; reflexivity).
+  assert (Hs : source_order_ok c08_fs2 c08_root (-1) 123456 = true) by (vm_compute; reflexivity).
+  refine (conj Hf (conj Hr (conj H5 (conj Ha (conj Hb (conj Hc (conj Hd (conj He
+           (conj (C08_parse_order_source_condition _ _ _ _ _ H1 H5 Hf Hr Ha)
+           (conj (C08_parse_order_source_condition _ _ _ _ _ H1 H2 Hf Hr Hb)
+           (conj (C08_parse_order_source_condition _ _ _ _ _ H2 H5 Hf Hr Hc)
+           (conj (C08_parse_order_counter_independent _ _ _ _ _ H5 H2 Hf Hr He)
+           (conj (C08_parse_order_source_condition _ _ _ _ _ H1 H2 Hf Hr Hd)
+           (conj (C08_read_order_source_condition _ _ _ _ H1 H2 Hf Hr Hs) _)))))))))))))).
+  split; [vm_compute; reflexivity|]. split; [vm_compute; reflexivity|]. split; [vm_compute; reflexivity|].
+  split; [vm_compute; discriminate|]. eexists. split; [vm_compute; reflexivity|]. split; vm_compute; reflexivity.
+Qed.
+
+Example C08_write_after_read_order_counter_independent_nonvacuous :
+  counter_ok 5 /\ order_side (123456 - 5) (read_plain c08_fs2 c08_root true true 5) = true /\
+  write_side' false (order_read (read_plain c08_fs2 c08_root true true 5)) = true /\
+  option_map (written_after (fmt_sd false)) (Parse.read_opts c08_fs2 c08_root true true true [] 123456) =
+  option_map (written_after (fmt_sd false)) (Parse.read_opts c08_fs2 c08_root true true true [] 5) /\
+  (exists txt, option_map (written_after (fmt_sd false)) (Parse.read_opts c08_fs2 c08_root true true true [] 5) = Some (Ok txt) /\
+               List.length txt = 520%nat).
+Proof.
+  destruct c08_ok as (H1 & H2 & H3).
+  assert (H5 : counter_ok 5) by (unfold counter_ok; split; discriminate).
+  assert (Hf : fs_ok c08_fs2 = true) by (vm_compute; reflexivity).
+  assert (Hr : cleanb c08_root = true) by (vm_compute; reflexivity).
+  assert (Ho : order_side (123456 - 5) (read_plain c08_fs2 c08_root true true 5) = true) by (vm_compute; reflexivity).
+  assert (Hw : write_side' false (order_read (read_plain c08_fs2 c08_root true true 5)) = true) by (vm_compute; reflexivity).
+  refine (conj H5 (conj Ho (conj Hw (conj (C08_write_after_read_order_counter_independent _ _ _ _ _ H5 H2 Hf Hr Ho Hw) _)))).
+  eexists. split; vm_compute; reflexivity.
+Qed.
+
+Example C08_write_sd_order_counter_independent_nonvacuous :
+  let s := c08_sd (read_plain c08_fs2 c08_root true true (-1)) in
+  keys_pure s = true /\ forallb (nowrapb 6) (sd_ids s) = true /\ write_sd_order_side false s = true /\
+  text_of (Parse.write_sd c08_fs2 false (of_string "/d/out.dict") false true (rename_sd 6 s) 11) =
+  text_of (Parse.write_sd c08_fs2 false (of_string "/d/out.dict") false true s 5) /\
+  rename_sd 6 s = c08_sd (read_plain c08_fs2 c08_root true true 5) /\
+  text_of (Parse.write_sd c08_fs2 false (of_string "/d/out.dict") false true s 5) <>
+  text_of (Parse.write_sd c08_fs2 false (of_string "/d/out.dict") false false s 5).
+Proof.
+  cbv zeta.
+  assert (Hp : keys_pure (c08_sd (read_plain c08_fs2 c08_root true true (-1))) = true) by (vm_compute; reflexivity).
+  assert (H6 : forallb (nowrapb 6) (sd_ids (c08_sd (read_plain c08_fs2 c08_root true true (-1)))) = true) by (vm_compute; reflexivity).
+  assert (Hw : write_sd_order_side false (c08_sd (read_plain c08_fs2 c08_root true true (-1))) = true) by (vm_compute; reflexivity).
+  refine (conj Hp (conj H6 (conj Hw (conj (C08_write_sd_order_counter_independent _ _ _ _ _ _ _ Hp H6 Hw) _)))).
+  split; [vm_compute; reflexivity|vm_compute; discriminate].
+Qed.
+
+(* ---- (3) findings --------------------------------------------------------------------------------------------- *)
+(* (a) keys_pure is needed, also WITHOUT a wrap: a key that begins with a placeholder word followed by fewer than six
+   digits.  LINECOMMENT000009 < LINECOMMENT00000x (9 < x), but LINECOMMENT000014 > LINECOMMENT00000x (1 > 0): monotonicity of the
+   shift on the ids is not enough, the comparison is decided inside the digits against a key that is not renamed.
+   From a source: the file below has no placeholder name in it (cleanb, fs_ok); parsed with order = true at the counters 8 and
+   13 (ids 9 and 14, no wrap) the comment comes out before / after the entry.  Same behaviour of the library (dictIO 0.4.1:
+   DictParser.parse(main.dict, order=True) with BorgCounter preset to 8 and to 13 writes "// c" before resp. after the line
+   "LINECOMMENT00000x  LINECOMMENT00000x;" -- the parser takes that key for a comment placeholder). *)
+Example C08_order_keys_pure_finding :
+  let s := mkSD [(KS (of_string "LINECOMMENT000009"), Leaf (SStr (of_string "LINECOMMENT000009"))); (KS (of_string "LINECOMMENT00000x"), Leaf (SInt 1))]
+                [(9%N, of_string "// c")] [] [] [] in
+  let fs := [(c08_root, FNative (of_string "// c
+LINECOMMENT00000x 1;
+b 2;
+"))] in
+  let w c := match Parse.parse_model fs c08_root true false true true [] None c with Some (Ok (_, txt, _)) => txt | _ => [] end in
+  keys_pure s = false /\ forallb (nowrapb 5) (sd_ids s) = true /\
+  key_exact (fun _ => true) (KS (of_string "LINECOMMENT000009")) = true /\ key_scan (fun _ => true) (KS (of_string "LINECOMMENT000009")) = true /\
+  key_exact (fun _ => true) (KS (of_string "LINECOMMENT00000x")) = false /\ key_scan (fun _ => true) (KS (of_string "LINECOMMENT00000x")) = false /\
+  sd_order (rename_sd 5 s) <> rename_sd 5 (sd_order s) /\
+  map fst (sd_data (sd_order s)) = [KS (of_string "LINECOMMENT000009"); KS (of_string "LINECOMMENT00000x")] /\
+  map fst (sd_data (sd_order (rename_sd 5 s))) = [KS (of_string "LINECOMMENT00000x"); KS (of_string "LINECOMMENT000014")] /\
+  (* from a source *)
+  fs_ok fs = true /\ source_order_ok fs c08_root 8 13 = false /\ pm_order_side fs c08_root None 8 13 = false /\
+  w 8%Z <> w 13%Z /\
+  contains (of_string "// c
+LINECOMMENT00000x             LINECOMMENT00000x;
+b ") (w 8%Z) = true /\
+  contains (of_string "LINECOMMENT00000x             LINECOMMENT00000x;
+// c
+b ") (w 13%Z) = true.
+Proof.
+  cbv zeta. do 6 (split; [vm_compute; reflexivity|]). split; [vm_compute; discriminate|]. do 5 (split; [vm_compute; reflexivity|]).
+  split; [vm_compute; discriminate|]. split; vm_compute; reflexivity.
+Qed.
+
+(* (b) why there are two ways.  The reader does NOT produce only keys that are exactly a placeholder or free, also from sources
+   free of placeholder names: the lexer puts a placeholder in the place of a comment / string literal without separating it
+   from its neighbours, so a comment or a quoted string glued to a key gives keys such as kLINECOMMENT000000 and
+   STRINGLITERAL000001cd (same keys in the library, dictIO 0.4.1).  They are key_scan: the theorems apply. *)
+Example C08_order_glued_keys_nonvacuous :
+  let t := of_string "k// c
+ 3;
+'ab'cd 1;
+a 2;
+" in
+  let fs := [(c08_root, FNative t)] in
+  let s := c08_sd (read_plain fs c08_root true true (-1)) in
+  fs_ok fs = true /\ cleanb t = true /\
+  map fst (sd_data s) = map (fun x => KS (of_string x)) ["kLINECOMMENT000000"; "STRINGLITERAL000001cd"; "a"]%string /\
+  pure_t (key_exact (fun _ => true)) (Dict (sd_data s)) = false /\ pure_t (key_scan (fun _ => true)) (Dict (sd_data s)) = true /\
+  keys_pure s = true /\ sd_ids s = [0; 0; 1]%N /\
+  source_order_ok fs c08_root (-1) 123456 = true /\
+  sd_order (rename_sd 123457 s) = rename_sd 123457 (sd_order s) /\
+  (exists n, Parse.read_opts fs c08_root true true true [] 123456 =
+             option_map (map_res (rename_read (123456 - -1) (counter_iter n 123456))) (Parse.read_opts fs c08_root true true true [] (-1))) /\
+  (* the bytes written do depend on the counter here, for another reason: the glued placeholder stays in the written text
+     (C08_written_placeholder_finding) *)
+  pm_order_source_ok fs c08_root None (-1) 123456 = false.
+Proof.
+  cbv zeta. destruct c08_ok as (H1 & H2 & H3).
+  assert (Hf : fs_ok [(c08_root, FNative (of_string "k// c
+ 3;
+'ab'cd 1;
+a 2;
+"))] = true) by (vm_compute; reflexivity).
+  assert (Hr : cleanb c08_root = true) by (vm_compute; reflexivity).
+  assert (Hs : source_order_ok [(c08_root, FNative (of_string "k// c
+ 3;
+'ab'cd 1;
+a 2;
+"))] c08_root (-1) 123456 = true) by (vm_compute; reflexivity).
+  split; [exact Hf|]. do 6 (split; [vm_compute; reflexivity|]). split; [exact Hs|].
+  split; [apply C08_order_no_wrap; vm_compute; reflexivity|].
+  split; [exact (C08_read_order_source_condition _ _ _ _ H1 H2 Hf Hr Hs)|vm_compute; reflexivity].
+Qed.
+
+(* (b') the two ways cannot be mixed within one SDict: aLINECOMMENT00000x is free (good the first way, not the second: a
+   partial placeholder inside), aLINECOMMENT000009 is a glued placeholder (good the second way, not the first); together the
+   order changes under the shift by 5, without a wrap. *)
+Example C08_order_keys_mixed_finding :
+  let K x := (KS (of_string x), Leaf (SInt 1)) in
+  let s := mkSD [K "aLINECOMMENT000009"; K "aLINECOMMENT00000x"]%string [] [] [] [] in
+  key_exact (fun _ => true) (KS (of_string "aLINECOMMENT00000x")) = true /\ key_scan (fun _ => true) (KS (of_string "aLINECOMMENT00000x")) = false /\
+  key_exact (fun _ => true) (KS (of_string "aLINECOMMENT000009")) = false /\ key_scan (fun _ => true) (KS (of_string "aLINECOMMENT000009")) = true /\
+  keys_pure s = false /\ forallb (nowrapb 5) (sd_ids s) = true /\
+  sd_order (rename_sd 5 s) <> rename_sd 5 (sd_order s) /\
+  keys_pure (mkSD [K "LINECOMMENT000009"; K "aLINECOMMENT00000x"]%string [] [] [] []) = true /\
+  keys_pure (mkSD [K "aLINECOMMENT000009"; K "LINECOMMENT000003"; K "b"]%string [] [] [] []) = true.
+Proof.
+  cbv zeta. do 6 (split; [vm_compute; reflexivity|]). split; [vm_compute; discriminate|]. split; vm_compute; reflexivity.
+Qed.
+
+(* (c) the boundary on the ids stays C08_order_wrap_finding (above): ids 999998 999999 0 1 of one read. *)
